@@ -53,6 +53,9 @@ struct jls_twr_s {
 static struct event_flag* eventflag_create(void) {
     struct event_flag* ev;
     ev = (struct event_flag*) malloc(sizeof(struct event_flag));
+    if (!ev) {
+        return NULL;
+    }
     pthread_mutex_init(&ev->mutex, NULL);
     pthread_cond_init(&ev->condition, NULL);
     ev->flag = 0;
